@@ -471,6 +471,78 @@ def c14_writer_case(args):
     return res
 
 
+def c14_cwriter_case(args):
+    """The real can_c create_can_signals on the real packed layout with symbolic widths (CanSignal -> recorder):
+    every signal inside 8*dlc bits, pairwise disjoint, dlc == ceil(total/8)."""
+    skname, skel, tier = args
+    _setup_sym()
+    from ..checks.layout_checks import _syms, concretize_skel, default_asg, _patch, _sym_width, _order_like
+    from ..layoutref import leaf_list
+    import fcp_can_c.can_c_writer as cw
+    from fcp.encoding import make_encoder, PackedEncoderContext
+
+    cw.CanSignal = RecSignal
+    cw.ceil = sym_ceil
+    cw.max = __import__("verif.pysym", fromlist=["sym_max"]).sym_max
+    cw.range = ForkingRange
+    res = new_result()
+    known = Known("C14")
+    ids, ws, ms = _syms(skel)
+    sym, assume = {}, []
+    for n in ws:
+        sym[n], c = SymInt.fresh(n, 1, 64)
+        assume.append(c)
+    for n in ms:
+        sym[n], c = SymInt.fresh(n, 0, 255)
+        assume.append(c)
+    text = concretize_skel(skel, default_asg(skel)).text()
+    feats = {"desc": f"can_c create_can_signals/{skname}", "skeleton": skname}
+    ref = leaf_list(_order_like(skel, default_asg(skel)), "S", True, width_of=lambda t: _sym_width(t, sym, skel))
+    total = z3.BitVecVal(0, W)
+    for hn, bn, t, w in ref:
+        total = total + z3of(w)
+    cov = Coverage()
+    eng = Engine(timeout_ms=30000, max_paths=5000)
+
+    def body():
+        fcp = parse(text)
+        _patch(fcp, skel, sym)
+        impl = [i for i in fcp.impls if i.protocol == "can"][0]
+        enc = make_encoder("packed", fcp, PackedEncoderContext().with_unroll_arrays(True)).generate(impl)
+        sigs, dlc = cw.create_can_signals(enc)
+        return sigs, dlc
+
+    def mk(m):
+        asg = dict(default_asg(skel))
+        asg.update({k: m.eval(x.e, model_completion=True).as_signed_long() for k, x in sym.items()})
+        return {"kind": "c_signal_table", "schema_text": concretize_skel(skel, asg).text()}
+
+    env = {"v": {k: x.e for k, x in sym.items()}}
+    try:
+        with cov:
+            paths = list(eng.explore(body, assume + [total <= 64]))
+        for pi, (kind, out, pc) in enumerate(paths):
+            ob = f"{feats['desc']}|path{pi}"
+            if kind == "exc":
+                res["inconclusive"].append(f"{ob}: create_can_signals raised {type(out).__name__}: {str(out)[:120]}")
+                continue
+            sigs, dlc = out
+            cs = [z3of(dlc) * 8 >= total, z3of(dlc) * 8 < total + 8]
+            rng = [(z3of(s.k["start_bit"]), z3of(s.k["start_bit"]) + z3of(s.k["bit_length"])) for s in sigs]
+            for a0, a1 in rng:
+                cs.append(a1 <= z3of(dlc) * 8)
+            for (a0, a1), (b0, b1) in itertools.combinations(rng, 2):
+                cs.append(z3.Or(a1 <= b0, b1 <= a0))
+            decide(eng, pc, z3.Not(z3.And(*cs)), prop="C14", ob_id=ob, res=res, known=known, features=feats, env=env,
+                   make_replay=mk, what=f"generated C signal table: a signal extends beyond dlc bytes / overlaps / dlc != ceil(bits/8) ({skname})")
+    except EngineLimit as e:
+        res["inconclusive"].append(f"{feats['desc']}: engine limit: {e}")
+    finish_engine(res, eng)
+    res["functions"] = sorted(cov.seen)
+    res["sample"] = {"part": "can_c create_can_signals with symbolic widths", "skeleton": skname, "paths": res["paths"]}
+    return res
+
+
 def c14_skeletons():
     can = [("can", "S", None, {"id": 1, "device": "ecu"}, [])]
     E = {"E": [("A", 0), ("Z", "m0")]}
@@ -518,6 +590,13 @@ def c14_concrete_cases():
     cases.append(("size", s, False))
     s = Schema(structs=[("S", [("a", 0, ("f64",)), ("b", 1, ("u", 1))])], impls=[("can", "S", None, {"id": 5, "device": "ecu"}, [])])
     cases.append(("size", s, False))
+    # renamed bindings ('as'), several bindings of one struct
+    s = Schema(structs=[("S", [("a", 0, ("u", 64)), ("b", 1, ("u", 8))])],
+               impls=[("can", "S", "BigFrame", {"id": 5, "device": "ecu"}, [])])
+    cases.append(("size_renamed", s, False))
+    s = Schema(structs=[("S", [("a", 0, ("u", 60)), ("b", 1, ("u", 4))])],
+               impls=[("can", "S", "Fits", {"id": 5, "device": "ecu"}, []), ("can", "S", "Fits2", {"id": 6, "device": "ecu"}, [])])
+    cases.append(("size_renamed", s, True))
     return cases
 
 
@@ -568,6 +647,8 @@ def _dispatch(args):
         return c05_tv_case(args[1:])
     if k == "writer":
         return c14_writer_case(args[1:])
+    if k == "cwriter":
+        return c14_cwriter_case(args[1:])
     return c14_concrete_case(args[1:])
 
 
@@ -614,6 +695,7 @@ def run_c05(tier: str) -> int:
 def run_c14(tier: str) -> int:
     rep = Report("C14", tier)
     cases = [("writer", n, s, tier) for n, s in c14_skeletons()] + _sym_cases("C14", tier)
+    cases += [("cwriter", n, s, tier) for n, s in c14_skeletons()]
     cases += [("concrete", k, s, f, tier) for k, s, f in c14_concrete_cases()]
     rep.bounds = {
         "symbolic_widths": "write_dbc on skeletons (flat, nested, arrays, arrays of structs, 9 leaves) with every "
